@@ -9,15 +9,21 @@ Streams
                and the same fold in Python directly on the implementation's sets).
          Failures of (B) are shrunk and classified by the predicates class_a .. class_d below.
   build  _build_cp_atom_payload(sequence, restrict) -> exact chunk tuple  vs Model_C11.build (A)
-  split  package_use_splitter on one line -> token tuple  vs Model_C11.split_line (A) and the
-         token-by-token meaning of the input line (B, Spec_C11.spec_split_ok in Coq)
+  split  one package.use line through the real package_use_splitter AND the real domain.pkg_use
+         conversion (split_negations(stable_unique(tokens))) -> token tuple + (neg, pos) entry
+           (A) vs Model_C11.split_line / to_chunk,
+           (B) both results vs the token-by-token meaning of the INPUT line on probe sets
+               (Spec_C11.spec_split_ok / spec_line_ok in Coq, and the same oracle in Python);
+               failures of the (neg, pos) form inside class (e) are the known finding line-conflict.
+  After any (A) disagreement the case and its neighbours (sub-histories / sub-sequences / sub-lines)
+  are searched with the (B) oracle applied to the implementation (search_around).
 """
 
 import logging
 
 import concurrent.futures as cf
 
-from .common import Check, Err, Raw, clist, cpair, impl_call
+from .common import Check, Err, Raw, clist, cpair, impl_call, jsonable
 
 IMPORTS = ("From Coq Require Import List NArith ZArith Bool.\n"
            "From Verif Require Import Base.Val C11.Model_C11 C11.Spec_C11 C11.Class_C11.")
@@ -704,73 +710,304 @@ def main(chk: Check):
             out += enc_scope(c.key) + [len(c.neg)] + [FLAG_ID[t] for t in c.neg] + [len(c.pos)] + [FLAG_ID[t] for t in c.pos]
         return vz(out)
 
-    build_cases = []
+    build_cases, build_meta = [], []
     for _ in range(budget(300, 1000, 4000)):
         seq, restrict = gen_seq(rng)
         res = impl_call(lambda: enc_chunks(_build_cp_atom_payload(
             [chunked_data(real_scope(sc), n, p) for sc, n, p in seq], real_scope(restrict))))
         build_cases.append((cpair(clist([c_chunk(c) for c in seq], "chunk"), c_scope(restrict)), res))
+        build_meta.append((seq, restrict))
         if len(seq) >= 3:
             chk.nontrivial(build_cases[-1][0])
     chk.count("build", len(build_cases))
     chk.sample({"stream": "build", "input": build_cases[3][0], "impl": getattr(build_cases[3][1], "term", None)})
 
-    # ------------------------------------------------------------------ split stream
+    # ------------------------------------------------------------------ split stream (package.use lines)
+    # abstract tokens: ('pos', b) ('neg', b) ('star',) ('hdr', p, spelling) ('bad', text); b in a/b/c
+    PFX = {1: "foo", 2: "bar"}
+    raw_pkg_use = domain_mod.domain.__dict__["pkg_use"].function.args[0]   # the function under load_property
+
     def gen_line(rng):
-        toks, terms = [], []
-        sec = None
-        for _ in range(rng.choice([1, 2, 3, 4, 5, 6, 8])):
-            r = rng.random()
-            if r < 0.12:
-                toks.append("-*")
-                terms.append("TStar")
-            elif r < 0.28:
-                p = rng.choice([1, 2])
-                toks.append(["", "FOO:", "BAR:"][p] if rng.random() < 0.8 else ["", "foo:", "Bar:"][p])
-                terms.append("(THdr %d)" % p)
-                sec = p
-            elif r < 0.32:
-                toks.append(rng.choice(["%bad", "a!b", "-a%"]))
-                terms.append("TBad")
-            else:
-                b = rng.choice(["a", "b", "c"])
-                if rng.random() < 0.35:
-                    toks.append("-" + b)
-                    terms.append("(TNeg %d)" % FLAG_ID[b])
+        def val():
+            b = rng.choice(["a", "b", "c"])
+            return ("neg", b) if rng.random() < 0.35 else ("pos", b)
+
+        def hdr():
+            p = rng.choice([1, 2])
+            return ("hdr", p, ["", "FOO:", "BAR:"][p] if rng.random() < 0.8 else ["", "foo:", "Bar:"][p])
+        out = []
+        if rng.random() < 0.7:   # structured: plain part (flags, maybe -* in the middle), then USE_EXPAND sections
+            for _ in range(rng.choice([0, 1, 2, 3, 4])):
+                out.append(("star",) if rng.random() < 0.2 else val())
+            for _ in range(rng.choice([0, 1, 1, 2])):
+                out.append(hdr())
+                for _ in range(rng.choice([0, 1, 2, 3])):
+                    out.append(("star",) if rng.random() < 0.2 else val())
+        else:
+            for _ in range(rng.choice([1, 2, 3, 4, 5, 6, 8])):
+                r = rng.random()
+                out.append(("star",) if r < 0.12 else hdr() if r < 0.28 else val())
+        if rng.random() < 0.08:
+            out.insert(rng.randrange(len(out) + 1), ("bad", rng.choice(["%bad", "a!b", "-a%"])))
+        return out or [val()]
+
+    def line_text(at):
+        return " ".join({"pos": lambda t: t[1], "neg": lambda t: "-" + t[1], "star": lambda t: "-*",
+                         "hdr": lambda t: t[2], "bad": lambda t: t[1]}[t[0]](t) for t in at)
+
+    def line_term(at):
+        return clist([{"pos": lambda t: "(TPos %d)" % FLAG_ID[t[1]], "neg": lambda t: "(TNeg %d)" % FLAG_ID[t[1]],
+                       "star": lambda t: "TStar", "hdr": lambda t: "(THdr %d)" % t[1],
+                       "bad": lambda t: "TBad"}[t[0]](t) for t in at], "tok")
+
+    def tok_apply(t, s):
+        """one output-style token applied to a set: flag, -flag, -*, -PREFIX_*"""
+        if t == "-*":
+            return set()
+        if t.startswith("-") and t.endswith("_*"):
+            return {f for f in s if not f.startswith(t[1:-2])}
+        if t.startswith("-"):
+            return s - {t[1:]}
+        return s | {t}
+
+    def line_meaning(at, s):
+        """the line, token by token, with the USE_EXPAND section state (the property's reference)"""
+        s, sec = set(s), None
+        for t in at:
+            if t[0] == "hdr":
+                sec = PFX[t[1]]
+            elif t[0] == "star":
+                s = tok_apply("-*" if sec is None else "-%s_*" % sec, s)
+            elif t[0] in ("pos", "neg"):
+                name = t[1] if sec is None else "%s_%s" % (sec, t[1])
+                s = tok_apply(name if t[0] == "pos" else "-" + name, s)
+        return s
+
+    def ref_split(at):
+        """mirror of Model_C11.split_line (only used to decide class (e))"""
+        if any(t[0] == "bad" for t in at):
+            return None
+        out, acc, buf, sec = [], [], [], None
+        for t in at:
+            if t[0] == "hdr":
+                out += acc if sec is None else buf
+                acc, buf, sec = [], [], PFX[t[1]]
+            elif sec is None:
+                if t[0] == "star":
+                    acc = ["-*"]
                 else:
-                    toks.append(b)
-                    terms.append("(TPos %d)" % FLAG_ID[b])
-        return toks, clist(terms, "tok")
+                    acc.append(t[1] if t[0] == "pos" else "-" + t[1])
+            elif t[0] == "star":
+                buf = []
+                out.append("-%s_*" % sec)
+            else:
+                buf.append(("%s_%s" if t[0] == "pos" else "-%s_%s") % (sec, t[1]))
+        return out + (acc if sec is None else buf)
+
+    def clears_tok(u, f):
+        return u == "-*" or (u.startswith("-") and u.endswith("_*") and f.startswith(u[1:-2])) or u == "-" + f
+
+    def class_e(at):
+        """mirror of Class_C11.class_e: the correct token list of the line adds a flag that a later
+        token of the line negates or clears"""
+        o = ref_split(at)
+        if o is None:
+            return False
+        return any(not t.startswith("-") and any(clears_tok(u, t) for u in o[i + 1:]) for i, t in enumerate(o))
+
+    def impl_line(at):
+        """-> Err | None (line rejected) | (token tuple, neg tuple, pos tuple) through the real splitter
+        and the real domain.pkg_use conversion"""
+        line = "cata/p1 " + line_text(at)
+
+        def f():
+            out = list(domain_mod.package_use_splitter([(line, 1, "package.use")]))
+            if not out:
+                return None
+            conv = raw_pkg_use(types.SimpleNamespace(), domain_mod.package_use_splitter([(line, 1, "package.use")]))
+            return (tuple(out[0][1]), tuple(conv[0][1][0]), tuple(conv[0][1][1]))
+        return impl_call(f)
+
+    LINE_PROBES = [set(), {"a", "b", "foo_a", "foo_b", "bar_a"}, {"c", "foo_a"}]
+
+    def line_failure(at, res):
+        """(B) for one line directly on the implementation -> None or a description"""
+        if isinstance(res, Err):
+            return {"what": "the line raises " + res.kind}
+        bad = any(t[0] == "bad" for t in at)
+        if res is None or bad:
+            if (res is None) != bad:
+                return {"what": "line %s" % ("rejected although every token is valid" if res is None
+                                             else "accepted although it holds an invalid token")}
+            return None
+        toks, neg, pos = res
+        for s0 in LINE_PROBES:
+            want = line_meaning(at, s0)
+            s1 = set(s0)
+            for t in toks:
+                s1 = tok_apply(t, s1)
+            if s1 != want:
+                return {"what": "the splitter's tokens, applied in order, do not mean what the line says",
+                        "tokens": list(toks), "start": sorted(s0), "got": sorted(s1), "line_means": sorted(want)}
+            s2 = set(s0)
+            if "*" in neg:
+                s2 = set()
+            for n in neg:
+                if n.endswith("_*"):
+                    s2 = {f for f in s2 if not f.startswith(n[:-2])}
+            s2 = (s2 - set(neg)) | set(pos)
+            if s2 != want:
+                return {"what": "the (neg, pos) entry made of the line does not mean what the line says",
+                        "tokens": list(toks), "neg": list(neg), "pos": list(pos), "start": sorted(s0),
+                        "got": sorted(s2), "line_means": sorted(want)}
+        return None
+
+    def enc_name(n):
+        if n in FLAG_ID:
+            return FLAG_ID[n]
+        if n[:4] in ("foo_", "bar_") and n[4:] in ("a", "b", "c"):
+            return (100 if n[:4] == "foo_" else 200) + FLAG_ID[n[4:]] - 10
+        return 9999
 
     def enc_out(t):
         if t == "-*":
             return 2000
         if t in ("-foo_*", "-bar_*"):
             return 3001 if t == "-foo_*" else 3002
-        n = t[1:] if t.startswith("-") else t
-        if n in ("a", "b", "c"):
-            i = FLAG_ID[n]
-        elif n[:4] in ("foo_", "bar_") and n[4:] in ("a", "b", "c"):
-            i = (100 if n[:4] == "foo_" else 200) + FLAG_ID[n[4:]] - 10
-        else:
-            return 9999
-        return (1000 + i) if t.startswith("-") else i
+        return 1000 + enc_name(t[1:]) if t.startswith("-") else enc_name(t)
 
-    split_cases = []
-    for _ in range(budget(300, 1000, 4000)):
-        toks, term = gen_line(rng)
-        line = rng.choice(["cata/p1", "*/*", "=catb/p1-2"]) + " " + " ".join(toks)
+    def canon_line(res):
+        if isinstance(res, Err) or res is None:
+            return res
+        toks, neg, pos = res
+        return Raw("(VL [%s; %s; %s])" % (vz([enc_out(t) for t in toks]).term, vz([enc_name(n) for n in neg]).term,
+                                           vz([enc_name(n) for n in pos]).term))
 
-        def f():
-            out = list(domain_mod.package_use_splitter([(line, 1, "package.use")]))
-            if not out:
-                return None
-            return vz([enc_out(t) for t in out[0][1]])
-        split_cases.append((term, impl_call(f)))
-        if len(toks) >= 3 and ("-*" in toks or any(t.endswith(":") for t in toks)):
-            chk.nontrivial(term)
+    line_witnesses = [[("pos", "a"), ("neg", "a")],                                         # class (e)
+                      [("pos", "a"), ("pos", "b"), ("star",), ("pos", "c"), ("hdr", 1, "FOO:"), ("pos", "a")]]
+    split_cases, split_meta, line_unclassified, line_fail_idx, n_line_conflict = [], [], [], set(), 0
+    for n in range(budget(300, 1000, 4000)):
+        at = line_witnesses[n] if n < len(line_witnesses) else gen_line(rng)
+        res = impl_line(at)
+        split_cases.append((line_term(at), canon_line(res)))
+        split_meta.append(at)
+        if len(at) >= 3 and any(t[0] in ("star", "hdr") for t in at):
+            chk.nontrivial(split_cases[-1][0])
+        fail = line_failure(at, res)
+        if fail is not None:
+            line_fail_idx.add(n)
+            fail["line"] = "cata/p1 " + line_text(at)
+            if class_e(at) and "entry made of the line" in fail["what"] and chk.known_finding("line-conflict", fail):
+                n_line_conflict += 1
+            else:
+                line_unclassified.append({"what": fail.pop("what"), "input": fail})
     chk.count("split", len(split_cases))
-    chk.sample({"stream": "split", "input": split_cases[0][0], "impl": getattr(split_cases[0][1], "term", None)})
+    chk.note(f"split: {n_line_conflict} lines whose one-chunk form differs from the line's meaning, all in class line-conflict")
+    chk.sample({"stream": "split", "input": split_cases[1][0], "impl": getattr(split_cases[1][1], "term", None)})
+
+    # ------------------------------------------------------------------ (B) searches around an (A) disagreement
+    def dec_scope(key):
+        e = enc_scope(key)
+        return {0: ("A",), 1: ("G", e[1]), 2: ("S", e[1]), 3: ("V", e[1], e[2])}.get(e[0], ("?",))
+
+    def build_failure(seq, restrict):
+        """collapse_is_fold_partial as an oracle on the implementation: within its premises the collapsed
+        sequence must render like the sequence"""
+        r = impl_call(lambda: [(dec_scope(c.key), tuple(c.neg), tuple(c.pos)) for c in _build_cp_atom_payload(
+            [chunked_data(real_scope(sc), n, p) for sc, n, p in seq], real_scope(restrict))])
+        if isinstance(r, Err):
+            return {"what": "_build_cp_atom_payload raises " + r.kind}
+        for pk in PKG_IDS:
+            app = [c for c in seq if applies(c[0], pk)]
+            if not applies(restrict, pk) or any(not spec_chunk(c) and not applies(c[0], pk) for c in seq):
+                continue
+            if any(is_wild(t) for c in app for t in c[1]) or any(set(c[1]) & set(c[2]) for c in app):
+                continue
+            sp = [c for c in app if spec_chunk(c)]
+            if set().union(*[set(c[1]) for c in sp] or [set()]) & set().union(*[set(c[2]) for c in sp] or [set()]):
+                continue
+            for pre in PRES:
+                if fold(r, pk, pre) != fold(seq, pk, pre):
+                    return {"what": "the collapsed chunk sequence renders differently from the sequence",
+                            "package": "%s-%d" % (KEYS[pk[0]], pk[1]), "pre_defaults": list(pre),
+                            "collapsed_renders": sorted(fold(r, pk, pre)), "sequence_renders": sorted(fold(seq, pk, pre))}
+        return None
+
+    def sublists(xs):
+        yield list(xs)
+        for i in range(len(xs)):
+            yield xs[:i] + xs[i + 1:]
+        for i in range(len(xs)):
+            for j in range(i + 1, len(xs)):
+                yield xs[:i] + xs[i + 1:j] + xs[j + 1:]
+        for i in range(1, len(xs)):
+            yield xs[:i]
+
+    def prog_variants(p, depth=2):
+        yield p
+        if depth == 0 or p[0] == "new":
+            return
+        subs = [p[1]] + ([p[2]] if p[0] == "merge" else [])
+        for q in subs:
+            yield from prog_variants(q, depth - 1)
+        if p[0] == "merge":
+            for v in prog_variants(p[1], depth - 1):
+                yield ("merge", v, p[2])
+            for v in prog_variants(p[2], depth - 1):
+                yield ("merge", p[1], v)
+        else:
+            for v in prog_variants(p[1], depth - 1):
+                yield (p[0], v) + tuple(p[2:])
+
+    def search_around(name, idx):
+        """after model and implementation disagree on a case: look for a PROPERTY failure (outside the
+        recorded classes) on that case and on its neighbours, with the oracle applied to the implementation"""
+        found = []
+        if name == "split":
+            for at in sublists(split_meta[idx]):
+                if not at:
+                    continue
+                fail = line_failure(at, impl_line(at))
+                if fail is not None and not (class_e(at) and "entry made of the line" in fail["what"]):
+                    fail["line"] = "cata/p1 " + line_text(at)
+                    found.append({"what": fail.pop("what"), "input": fail})
+                    break
+        elif name == "build":
+            seq, restrict = build_meta[idx]
+            for sub in sublists(seq):
+                fail = build_failure(sub, restrict)
+                if fail is not None:
+                    fail["sequence"] = [c_chunk(c) for c in sub]
+                    found.append({"what": fail.pop("what"), "input": fail})
+                    break
+        else:
+            prog, _pres = hist_meta[idx]
+            seen = set()
+            for q in prog_variants(prog, 2):
+                if q in seen:
+                    continue
+                seen.add(q)
+                r = render_real(q, PRES)
+                if isinstance(r, Err):
+                    if refusal_kind(q) is None:
+                        found.append({"what": "the operations raise %s although nothing is frozen" % r.kind,
+                                      "input": {"history": show_prog(q), "prog": q}})
+                        break
+                    continue
+                hit = None
+                for (i, pk), st in r.items():
+                    if st != fold(entries(q), pk, PRES[i]) and not any(pred(q, pk) for _c, pred in CLASSES):
+                        hit = (i, pk, st)
+                        break
+                if hit:
+                    i, pk, st = hit
+                    found.append({"what": "rendered flag set differs from applying the entries in order",
+                                  "input": {"history": show_prog(q), "package": "%s-%d" % (KEYS[pk[0]], pk[1]),
+                                            "pre_defaults": list(PRES[i]), "rendered": sorted(st),
+                                            "left_fold": sorted(fold(entries(q), pk, PRES[i])), "prog": q,
+                                            "pkg": list(pk), "via": "direct API"}})
+                    break
+        return found
 
     # ------------------------------------------------------------------ evaluate model and spec inside Coq
     streams = [
@@ -781,10 +1018,12 @@ def main(chk: Check):
           "where_ (fun i _ => existsb (class_c (fst i)) pkgs) cases"], 500),
         ("build", "list chunk * scope", build_cases, ["mismatches run_build cases"], 400),
         ("split", "list tok", split_cases,
-         ["mismatches run_split cases", "where_ (fun i r => negb (spec_split_ok i r)) cases"], 400),
+         ["mismatches run_split cases",
+          "where_ (fun i r => negb (spec_split_ok i r && spec_line_ok i r)) cases",
+          "where_ (fun i _ => class_e i) cases"], 400),
     ]
     a_bad = []
-    split_bad = []
+    around = []
     with cf.ThreadPoolExecutor(max_workers=3) as ex:
         futs = [(st, ex.submit(chk.coq_eval, st[0], IMPORTS, st[1], st[2], st[3], st[4], PRE) if ok else None)
                 for st in streams]
@@ -794,8 +1033,20 @@ def main(chk: Check):
             continue
         for i in r[0][:3]:
             a_bad.append((name, cases[i]))
+            around += search_around(name, i)
         if name == "split":
-            split_bad = [cases[i] for i in r[1]]
+            if set(r[1]) != line_fail_idx:
+                chk.violation("correspondence",
+                              {"what": "Spec_C11.spec_split_ok/spec_line_ok (in Coq) and the harness's line oracle "
+                                       "disagree on which implementation results are wrong",
+                               "only_coq": [split_cases[i][0] for i in sorted(set(r[1]) - line_fail_idx)[:3]],
+                               "only_python": [split_cases[i][0] for i in sorted(line_fail_idx - set(r[1]))[:3]]},
+                              no_input=True)
+            py_e = {i for i, at in enumerate(split_meta) if class_e(at)}
+            if py_e != set(r[2]):
+                chk.violation("correspondence",
+                              {"what": "the harness classifier of 'line-conflict' and Class_C11.class_e disagree",
+                               "cases": [split_cases[i][0] for i in sorted(py_e ^ set(r[2]))[:3]]}, no_input=True)
         if name == "hist":
             # the Coq-side fold must agree with the Python-side fold on which cases fail
             coq_fail = set(r[1])
@@ -822,17 +1073,20 @@ def main(chk: Check):
     if fut_assumptions is not None:
         fut_assumptions.result()
     bg.shutdown()
-    for u in unclassified[:3]:
+    prop_fail, seen_fail = [], set()
+    for u in unclassified[:3] + line_unclassified[:3] + around[:3]:
+        key = repr(jsonable(u))
+        if key not in seen_fail:
+            seen_fail.add(key)
+            prop_fail.append(u)
+    for u in prop_fail:
         chk.violation("property", u)
-    for s in split_bad[:3]:
-        chk.violation("property", {"what": "the package.use splitter's output does not mean what the line says "
-                                           "(Spec_C11.spec_split_ok)", "input": s[0], "implementation": getattr(s[1], "term", s[1])})
     for name, case in a_bad:
         chk.violation("correspondence",
                       {"what": f"implementation and Model_C11 disagree on stream '{name}' "
                                "(the theorems of Prop_C11 no longer speak about this code)",
                        "input": case[0], "implementation": getattr(case[1], "term", case[1])},
-                      no_input=not (unclassified or split_bad))
+                      no_input=not prop_fail)
 
 
 def _tuplify(x):
